@@ -71,14 +71,16 @@ ResDef == [t |-> "res", s |-> 0, v |-> 0, k |-> "func"]          \* the address 
 
 (* ------------------------------ module shapes ---------------------------------------- *)
 (* A shape is the sequence of declarations of a module, in order:                        *)
-(*   f = function, d = data item, i = import, e = export, w = forward.                   *)
+(*   f = function, d = data item, i = import, e = export, w = forward,                   *)
+(*   s = data section: a named data item followed by anonymous data items (an array or   *)
+(*       struct); the name denotes the first item, i.e. the start of the whole block.    *)
 D(k, n) == [k |-> k, n |-> n]
 AllShapes == <<
   (* 1 P *) <<D("e", "a"), D("f", "a"), D("i", "b")>>,
-  (* 2 Q *) <<D("i", "a"), D("f", "b"), D("e", "b"), D("d", "c"), D("e", "c")>>,
+  (* 2 Q *) <<D("i", "a"), D("f", "b"), D("e", "b"), D("s", "c"), D("e", "c")>>,
   (* 3 R *) <<D("w", "a"), D("i", "c"), D("f", "a")>>,
   (* 4 T *) <<D("f", "c"), D("e", "c"), D("i", "a"), D("i", "b"), D("i", "a")>>,
-  (* 5 U *) <<D("d", "a"), D("e", "a"), D("w", "b"), D("d", "b"), D("e", "b")>>,
+  (* 5 U *) <<D("d", "a"), D("e", "a"), D("w", "b"), D("s", "b"), D("e", "b")>>,
   (* 6   *) <<D("i", "a"), D("f", "a")>>,                    \* import then definition: import_export
   (* 7   *) <<D("f", "b"), D("e", "b"), D("i", "b")>>,       \* import of a local definition: import_export
   (* 8   *) <<D("e", "c"), D("i", "c")>>,                    \* import of an exported name: import_export
@@ -147,7 +149,7 @@ RECURSIVE LoadDecls(_, _, _, _, _, _)
 LoadDecls(decls, i, s, v, e, hist) ==
   IF i > Len(decls) THEN [err |-> "", env |-> e, hist |-> hist]
   ELSE LET k == decls[i].k  n == decls[i].n IN
-    IF k \in {"f", "d"} /\ Tab(s)[n].exp
+    IF k \in {"f", "d", "s"} /\ Tab(s)[n].exp
     THEN IF k = "f" /\ ~permit /\ e[n] # NoDef          \* DevRedefAnyEntry: any visible entry, not only a function
          THEN [err |-> "repeated_decl", env |-> e, hist |-> hist]
          ELSE LoadDecls(decls, i + 1, s, v, [e EXCEPT ![n] = MirDef(s, v, Kind(k))],
